@@ -1,45 +1,70 @@
-(* C19 — specification: what the user is promised, written by hand and independently of the numeric tables
-   and formulas that UnitsGen.v regenerates from unit.rs.  Only the *shape* of the source's enums (the names
-   of the scale and unit variants) is shared; every number and every string below is the documented meaning
-   (SI prefixes, 8 bits per byte, CloudWatch's unit names). *)
+(* C19 — specification: what the user is promised, written by hand and independently of the numeric tables,
+   formulas and strings that UnitsGen.v regenerates from unit.rs.  It is keyed by *names* - the Rust tag type's
+   identifier and CloudWatch's unit name - and never pattern-matches on the generated enumerations, so it keeps
+   compiling (and the correspondence keeps running) whatever the translator emits; a unit the tables below do not
+   know simply fails the specification. Every number and string is the documented meaning (SI prefixes, 8 bits per
+   byte, CloudWatch's MetricDatum unit names). *)
 From Coq Require Import List ZArith NArith QArith Qabs Bool.
-From MV Require Import SFloat.Str C19.UnitsGen.
+From Flocq Require Import IEEE754.Binary IEEE754.Bits.
+From MV Require Import SFloat.Defs SFloat.Str C19.UnitsGen C19.Model.
 Import ListNotations.
 Local Open Scope Q_scope.
+Local Open Scope str_scope.
 
-(* SI prefixes *)
-Definition nscale_q (s : nscale) : Q :=
-  match s with NS_Micro => 1 # 1000000 | NS_Milli => 1 # 1000 | NS_One => 1 end.
-Definition pscale_q (s : pscale) : Q :=
-  match s with
-  | PS_One => 1 | PS_Kilo => 1000 | PS_Mega => 1000000 | PS_Giga => 1000000000 | PS_Tera => 1000000000000
+Inductive dimension := D_Unitless | D_Plain | D_Time | D_Data | D_Unknown.
+
+(* CloudWatch's units: dimension, and the size of one unit in seconds / bits / bits per second (1 if dimensionless).
+   Data and data-rate units form one family here, as in the property's quantifier and the source's single BitTag. *)
+Definition cloudwatch_units : list (str * (dimension * Q)) :=
+  [ ("None", (D_Unitless, 1)); ("Count", (D_Plain, 1)); ("Percent", (D_Plain, 1));
+    ("Seconds", (D_Time, 1)); ("Milliseconds", (D_Time, 1 # 1000)); ("Microseconds", (D_Time, 1 # 1000000));
+    ("Bytes", (D_Data, 8)); ("Kilobytes", (D_Data, 8000)); ("Megabytes", (D_Data, 8000000));
+    ("Gigabytes", (D_Data, 8000000000)); ("Terabytes", (D_Data, 8000000000000));
+    ("Bits", (D_Data, 1)); ("Kilobits", (D_Data, 1000)); ("Megabits", (D_Data, 1000000));
+    ("Gigabits", (D_Data, 1000000000)); ("Terabits", (D_Data, 1000000000000));
+    ("Bytes/Second", (D_Data, 8)); ("Kilobytes/Second", (D_Data, 8000)); ("Megabytes/Second", (D_Data, 8000000));
+    ("Gigabytes/Second", (D_Data, 8000000000)); ("Terabytes/Second", (D_Data, 8000000000000));
+    ("Bits/Second", (D_Data, 1)); ("Kilobits/Second", (D_Data, 1000)); ("Megabits/Second", (D_Data, 1000000));
+    ("Gigabits/Second", (D_Data, 1000000000)); ("Terabits/Second", (D_Data, 1000000000000)) ].
+
+(* the unit each Rust tag type declares, by the type's identifier *)
+Definition declared_names : list (str * str) :=
+  [ ("None", "None"); ("Count", "Count"); ("Percent", "Percent");
+    ("Second", "Seconds"); ("Millisecond", "Milliseconds"); ("Microsecond", "Microseconds");
+    ("Byte", "Bytes"); ("Kilobyte", "Kilobytes"); ("Megabyte", "Megabytes"); ("Gigabyte", "Gigabytes"); ("Terabyte", "Terabytes");
+    ("Bit", "Bits"); ("Kilobit", "Kilobits"); ("Megabit", "Megabits"); ("Gigabit", "Gigabits"); ("Terabit", "Terabits");
+    ("BytePerSecond", "Bytes/Second"); ("KilobytePerSecond", "Kilobytes/Second"); ("MegabytePerSecond", "Megabytes/Second");
+    ("GigabytePerSecond", "Gigabytes/Second"); ("TerabytePerSecond", "Terabytes/Second");
+    ("BitPerSecond", "Bits/Second"); ("KilobitPerSecond", "Kilobits/Second"); ("MegabitPerSecond", "Megabits/Second");
+    ("GigabitPerSecond", "Gigabits/Second"); ("TerabitPerSecond", "Terabits/Second") ].
+
+Fixpoint lookup {V : Type} (k : str) (l : list (str * V)) : option V :=
+  match l with
+  | [] => None
+  | (k', v) :: r => if str_eqb k k' then Some v else lookup k r
   end.
 
-(* physical size of one unit, in seconds / bits / bits per second; 1 for the dimensionless units *)
-Definition phys (u : unit_) : Q :=
-  match u with
-  | U_Second s => nscale_q s
-  | U_Byte s => 8 * pscale_q s
-  | U_BytePerSecond s => 8 * pscale_q s
-  | U_Bit s => pscale_q s
-  | U_BitPerSecond s => pscale_q s
-  | U_None | U_Count | U_Percent | U_Custom _ => 1
+(* the name the declared tag promises; "?" for a tag the specification does not know *)
+Definition spec_name_of_tag (t : tag) : str :=
+  match lookup (tag_ident t) declared_names with Some n => n | None => "?" end.
+
+(* the CloudWatch name of a unit value: that of the tag which declares it; a custom unit prints its own string *)
+Definition cloudwatch_name (u : unit_) : str :=
+  match find (fun t => unit_eqb (tag_unit t) u) all_tags with
+  | Some t => spec_name_of_tag t
+  | None => unit_name u
   end.
 
-Inductive dimension := D_Unitless | D_Plain | D_Time | D_Data.
-(* data and data-rate units form one family in the source (`BitTag`), as the property's quantifier says *)
-Definition dimension_of (u : unit_) : dimension :=
-  match u with
-  | U_None => D_Unitless
-  | U_Second _ => D_Time
-  | U_Byte _ | U_BytePerSecond _ | U_Bit _ | U_BitPerSecond _ => D_Data
-  | U_Count | U_Percent | U_Custom _ => D_Plain
-  end.
+Definition unit_info (u : unit_) : option (dimension * Q) := lookup (cloudwatch_name u) cloudwatch_units.
+(* physical size of one unit; 0 marks a unit the specification does not know (every law about it then fails) *)
+Definition phys (u : unit_) : Q := match unit_info u with Some (_, q) => q | None => 0 end.
+Definition dimension_of (u : unit_) : dimension := match unit_info u with Some (d, _) => d | None => D_Unknown end.
 
 (* the documented conversion rule: a unitless value can be *declared* to be in any unit (the number is kept),
    time converts to time, data to data; nothing else *)
 Definition spec_convertible (a b : unit_) : bool :=
   match dimension_of a, dimension_of b with
+  | D_Unitless, D_Unknown => false
   | D_Unitless, _ => true
   | D_Time, D_Time => true
   | D_Data, D_Data => true
@@ -53,37 +78,11 @@ Definition spec_ratio (a b : unit_) : Q :=
   | _ => phys a / phys b
   end.
 
-(* the names CloudWatch defines (MetricDatum.Unit) *)
-Local Open Scope str_scope.
-Definition pscale_prefix (s : pscale) : str :=
-  match s with PS_One => "" | PS_Kilo => "Kilo" | PS_Mega => "Mega" | PS_Giga => "Giga" | PS_Tera => "Tera" end.
-Definition scaled_name (s : pscale) (cap low suffix : str) : str :=
-  match s with
-  | PS_One => cap +++ suffix
-  | _ => pscale_prefix s +++ low +++ suffix
-  end.
-Definition cloudwatch_name (u : unit_) : str :=
-  match u with
-  | U_None => "None"
-  | U_Count => "Count"
-  | U_Percent => "Percent"
-  | U_Second NS_One => "Seconds"
-  | U_Second NS_Milli => "Milliseconds"
-  | U_Second NS_Micro => "Microseconds"
-  | U_Byte s => scaled_name s "Bytes" "bytes" ""
-  | U_Bit s => scaled_name s "Bits" "bits" ""
-  | U_BytePerSecond s => scaled_name s "Bytes" "bytes" "/Second"
-  | U_BitPerSecond s => scaled_name s "Bits" "bits" "/Second"
-  | U_Custom n => n
-  end.
-
 (* ------------------------------------------------------------------------------------------------
    Specification of a whole value tree (syntax shared with the model): the *exact* numbers, as rationals,
    that should reach the formatter, and how many floating-point roundings the implementation is allowed
    on the way ("up to floating-point rounding").  Declaring or converting a unit never changes
    number x unit size. *)
-From Flocq Require Import IEEE754.Binary IEEE754.Bits.
-From MV Require Import SFloat.Defs C19.Model.
 Local Close Scope str_scope.
 Local Open Scope Q_scope.
 
